@@ -8,9 +8,15 @@ CLAIMED = {
         design_ref="5/C18",
         note="trusted: Kani/CBMC/CaDiCaL, extraction E1; paper lemmas L-iter and L-subsets (induction over step contracts); collect bounded to 4 elements",
         technique="function contracts (pre/post) on the real BitBoard methods, discharged by Kani/CBMC over the full 2^64 (x2^64) domain; iterator step contracts + induction lemma"),
+    "C19": dict(
+        category="proof",
+        text="Coordinate construction/decomposition/flips/relative views and try_offset are verified against plain coordinate arithmetic by loop-free full-domain Kani harnesses (64 squares x 256 x 256 offsets; CBMC's overflow checks on every arithmetic operation decide 'same answer with and without overflow checks'); char conversions over the whole char domain; Display of Square/File/Rank/Piece/Color/Move is verified through the REAL core::fmt machinery into a fixed buffer, and parse(format(m)) == m for every legal-shape move. FromStr over arbitrary strings is a bounded stand-in (all UTF-8 strings of <= 4/6/8 bytes, longer than the longest accepted text) and is not counted as proved.",
+        design_ref="5/C19",
+        note="trusted: Kani/CBMC/CaDiCaL, extraction E1; string quantifier bounded by byte length (stated per obligation); core::str::from_utf8 / chars() / core::fmt are executed from the real core sources",
+        technique="function contracts (pre/post) on the real coordinate/text functions, Kani/CBMC full-domain; bounded harnesses for FromStr"),
 }
 
 _todo = "not yet covered by this revision of the machinery (work in progress; see DESIGN.md section 5 for the planned obligations)"
 NOT_APPLICABLE = {p: _todo for p in
                   ["C01", "C02", "C03", "C04", "C05", "C06", "C07", "C08", "C09", "C10", "C11", "C12", "C13", "C14", "C15",
-                   "C16", "C17", "C19", "C20"]}
+                   "C16", "C17", "C20"]}
